@@ -1,40 +1,38 @@
 /-
-Line-protocol driver: one JSON object per input line `{"op": name, ...}`,
-one JSON object per output line. Imports only Mathlib-free model code, so it
-links as a native executable.
+Main loop of a line-protocol driver: one JSON object per input line `{"op": name, ...}`,
+one JSON object per output line. Mathlib-free so that it links as a native executable.
 -/
 import PrecondVerif.Kit.Proto
-import PrecondVerif.Drv.C06
 
+namespace PrecondVerif.Loop
 open Lean PrecondVerif.Proto
 
-def allOps : List Op :=
-  PrecondVerif.Drv.C06.ops
-
-def handle (line : String) : Json :=
+def handle (ops : List Op) (line : String) : Json :=
   match Json.parse line with
   | .error e => obj [("error", Json.str s!"parse: {e}")]
   | .ok j =>
     match getStr j "op" with
     | .error e => obj [("error", Json.str e)]
     | .ok op =>
-      match allOps.lookup op with
+      match ops.lookup op with
       | none => obj [("error", Json.str s!"unknown op {op}")]
       | some f =>
         match f j with
         | .ok r => r
         | .error e => obj [("error", Json.str e)]
 
-partial def loop (hin : IO.FS.Stream) (hout : IO.FS.Stream) : IO Unit := do
+partial def loop (ops : List Op) (hin hout : IO.FS.Stream) : IO Unit := do
   let line ← hin.getLine
   if line.isEmpty then return ()
   let l := line.trimAscii.toString
-  if l.isEmpty then loop hin hout else
-  hout.putStrLn (handle l).compress
-  loop hin hout
+  if l.isEmpty then loop ops hin hout else
+  hout.putStrLn (handle ops l).compress
+  loop ops hin hout
 
-def main : IO Unit := do
+def run (ops : List Op) : IO Unit := do
   let hin ← IO.getStdin
   let hout ← IO.getStdout
-  loop hin hout
+  loop ops hin hout
   hout.flush
+
+end PrecondVerif.Loop
